@@ -64,7 +64,9 @@ CLAIMED = {
         "serialization round trips, then given non-matching and matching events). Run loop (Model/Runner.v, "
         "Proofs/RunnerConserveWT.v), every schedule: the waiter timeouts the reducer scheduled are, with multiplicity, "
         "exactly the timeout ticks it processed plus those still in the timer heap / buffer / mailbox "
-        "(C10_run_loop_conserves_waiter_timeouts); tied to _ControlLoopRunner by the runner differential. PARTIAL: "
+        "(C10_run_loop_conserves_waiter_timeouts); a time-out registered at clock reading c with timeout t is entered for "
+        "c + t and never reaches the reducer earlier (C10_run_loop_waiter_timeout_is_scheduled_at_registration_plus_timeout, "
+        "C10_run_loop_no_timeout_fires_early; Proofs/RunnerFire.v); tied to _ControlLoopRunner by the runner differential. PARTIAL: "
         "after serialization requirements are re-established by the replayed step registering the wait again - user "
         "code, covered by correspondence (OSerde/OResume ops, waitflow snapshot/resume runs), not by a theorem.",
         "asyncio timers are exercised under the virtual-time loop (L2 monitor, runner differential), not modelled.",
